@@ -233,3 +233,95 @@ func escapeRules(p *core.Program, r *core.Report) {
 	}
 	r.Floor("R12.2", 18)
 }
+
+// decodedStringRule (R12.2, second half): the function that drives the escape decoder returns,
+// on success, the decode buffer converted to a string and nothing else — any transformation
+// applied AFTER decoding (a newline normaliser, a trim) also rewrites characters that were
+// written as escapes ("\r" must stay a carriage return) — and transformations of the raw
+// literal text happen before the first decoder call.
+func decodedStringRule(p *core.Program, r *core.Report) {
+	info := p.Pkg("parser/lexer").TypesInfo
+	// the per-character decoder: found by escapeRules' criterion (many single-character cases);
+	// here: the function called in a loop by exactly one other function of the package with a string argument
+	var driver *ast.FuncDecl
+	var decCall *ast.CallExpr
+	for _, fd := range p.FuncDecls("parser/lexer") {
+		if fd.Body == nil {
+			continue
+		}
+		ast.Inspect(fd.Body, func(n ast.Node) bool {
+			fs, ok := n.(*ast.ForStmt)
+			if !ok {
+				return true
+			}
+			ast.Inspect(fs.Body, func(m ast.Node) bool {
+				c, ok := m.(*ast.CallExpr)
+				if !ok {
+					return true
+				}
+				fn := eng.CalleeOf(info, c)
+				if fn == nil || fn.Pkg() != p.Pkg("parser/lexer").Types {
+					return true
+				}
+				sig := fn.Type().(*types.Signature)
+				if sig.Results().Len() == 4 && sig.Params().Len() == 1 {
+					driver, decCall = fd, c
+				}
+				return true
+			})
+			return true
+		})
+	}
+	if driver == nil {
+		r.Unk("R12.2", "escape decoding driver", "", "no function that calls the per-character decoder in a loop")
+		return
+	}
+	dname := core.FuncName("parser/lexer", driver)
+	// success returns: last result nil
+	bad := ""
+	n := 0
+	ast.Inspect(driver.Body, func(nd ast.Node) bool {
+		rs, ok := nd.(*ast.ReturnStmt)
+		if !ok || len(rs.Results) != 2 || !isNilIdent(info, rs.Results[1]) {
+			return true
+		}
+		n++
+		e := eng.Unparen(rs.Results[0])
+		// string(buf) — a conversion of a local byte/rune buffer
+		okConv := false
+		if c, isC := e.(*ast.CallExpr); isC && len(c.Args) == 1 {
+			if tv, isT := info.Types[c.Fun]; isT && tv.IsType() {
+				if _, isID := eng.Unparen(c.Args[0]).(*ast.Ident); isID {
+					okConv = true
+				}
+			}
+		}
+		if !okConv && rs.Pos() > decCall.Pos() {
+			bad = "returns `" + eng.ExprStr(e) + "` at " + p.Pos(rs.Pos())
+		}
+		if !okConv && rs.Pos() < decCall.Pos() {
+			// a success return before the decoding loop: the raw text is returned undecoded
+			bad = "returns `" + eng.ExprStr(e) + "` at " + p.Pos(rs.Pos()) + " before any decoding (a shortcut that skips the decoder must be shown equivalent)"
+		}
+		return true
+	})
+	r.Check(bad == "" && n > 0, "R12.2", dname+"/returns the decoded buffer untransformed", p.Pos(driver.Pos()), "success returns string(buffer)", dname+" "+bad+": a transformation applied after (or instead of) escape decoding also rewrites characters that were written as escapes — \"\\r\" no longer lexes to a carriage return")
+	// transformations of the input happen before the first decoder call
+	late := ""
+	var param types.Object
+	if driver.Type.Params != nil && len(driver.Type.Params.List) > 0 && len(driver.Type.Params.List[0].Names) > 0 {
+		param = info.Defs[driver.Type.Params.List[0].Names[0]]
+	}
+	ast.Inspect(driver.Body, func(nd ast.Node) bool {
+		c, ok := nd.(*ast.CallExpr)
+		if !ok || c.Pos() < decCall.Pos() {
+			return true
+		}
+		if sel, ok := c.Fun.(*ast.SelectorExpr); ok && (sel.Sel.Name == "Replace" || sel.Sel.Name == "ReplaceAll" || strings.HasPrefix(sel.Sel.Name, "Trim")) {
+			late = eng.ExprStr(c) + " at " + p.Pos(c.Pos())
+		}
+		return true
+	})
+	_ = param
+	r.Check(late == "", "R12.2", dname+"/text transformations precede decoding", p.Pos(driver.Pos()), "none after the decoder loop starts", "the text is transformed by "+late+" after decoding has begun")
+}
